@@ -25,7 +25,8 @@ REQUIRED_MONITORS = ["F1sq_le_F2", "I_equals_scale_F2_over_V", "lowq_equality_mo
                      "volume_sphere_mode", "modes_positive_finite"]
 REQUIRED_BUCKETS = {"quick": ["pd:off", "pd:on", "mesh>100", "mode:volume-sphere", "hollow", "lane:asan", "zero-default-length-switched-on", "mesh-crosses-validity-condition",
                               "after-product-built-with-this-form-factor", "special:lengths-exactly-equal",
-                              "special:equal-lengths-with-equal-dispersity", "entry:2d-with-orientation-spread"]}
+                              "special:equal-lengths-with-equal-dispersity", "entry:2d-with-orientation-spread",
+                              "cutoff>0:removes-mesh-points", "entry:DirectModel-cutoff-0"]}
 REQUIRED_BUCKETS["thorough"] = REQUIRED_BUCKETS["quick"]
 SPHERICAL = ["sphere", "core_shell_sphere", "fuzzy_sphere", "core_multi_shell", "onion", "spherical_sld", "vesicle",
              "multilayer_vesicle"]
@@ -203,6 +204,24 @@ def run_case(case, rec):
                           dict(c, ratio_F1sq_F2=r, q_size=qs))
             if name in SPHERICAL:
                 rec.check("spherical_equality_mono", core.close(F1**2, F2, 1e-10, 1e-12*float(np.max(F2))), c)
+    if not mono:
+        # the identity at a weight cutoff above zero (both entry points given the same cutoff), and through the data-object
+        # calculator asked for the whole mesh (cutoff 0)
+        from sasmodels import data as sdata
+        cut_ = float(10**rng.uniform(-3.5, -2.0))
+        Ic = np.asarray(direct_model.call_kernel(kernel, dict(pars), cutoff=cut_), float)
+        F1c, F2c, _Rc, Vsc, _rc = direct_model.call_Fq(kernel, dict(pars, radius_effective_mode=0), cutoff=cut_)
+        okc = core.close(Ic, scale*np.asarray(F2c, float)/Vsc + bg, 1e-12, 1e-14*float(np.max(np.abs(Ic))))
+        rec.check("I_equals_scale_F2_over_V", okc,
+                  None if okc else dict(ctx, cutoff=cut_, I=Ic, F2=F2c, V_shell=Vsc, note="call_kernel and call_Fq given the same cutoff"))
+        if not np.array_equal(Ic, I):
+            rec.bucket("cutoff>0:removes-mesh-points")
+        Idm = np.asarray(direct_model.DirectModel(sdata.empty_data1D(q), model, cutoff=0.0)(**pars), float)
+        okd = core.close(Idm, I, 1e-12, 1e-14*float(np.max(np.abs(I))))
+        rec.check("I_equals_scale_F2_over_V", okd,
+                  None if okd else dict(ctx, I_DirectModel_cutoff_0=Idm, I_call_kernel_cutoff_0=I,
+                                        note="DirectModel(data, model, cutoff=0) against scale*<F^2>/<V>+background of the whole mesh"))
+        rec.bucket("entry:DirectModel-cutoff-0")
     # the same (shape-monodisperse) particles seen through the 2-D entry with a spread of orientations: the
     # reported radius and volumes are those of the particle
     angs = [p_.name for p_ in i.parameters.orientation_parameters]
